@@ -63,7 +63,7 @@ func (c05) Budget(tier string) runner.Budget {
 	if tier == "thorough" {
 		return runner.Budget{Plans: 6000, PlansPerProc: 6, Wall: 14 * time.Minute}
 	}
-	return runner.Budget{Plans: 440, PlansPerProc: 5, Wall: 75 * time.Second, MinPlans: 340}
+	return runner.Budget{Plans: 480, PlansPerProc: 5, Wall: 75 * time.Second, MinPlans: 480}
 }
 
 func (c05) Describe() runner.Description {
